@@ -341,6 +341,15 @@ register('C10', corr=trace_corr('tm', 'tmcases', (60, 2000), lambda op, code: op
                       'zero-amount giveToken is not generated (the debug VM rejects zero-value ESDT transfers from an account without that token)'])
 
 
+GAS_RULE = ('histories generated by harness/src/gas_mode.rs (seed=VERIF_SEED): the eight payment endpoints with payments none / EGLD / one ESDT / two ESDTs / zero amount / wrong kind, '
+            'collectFees with duplicate tokens and amounts 0, balance, balance+1, refund with amounts up to balance+1 and zero receiver, setGasCollector, by collector, owner and strangers. '
+            'Every step compares status, events, storage diff and balance diff with the Coq model. distinct = distinct operation sequences; non-trivial = at least one accepted and one rejected operation')
+
+register('C15', corr=trace_corr('gas', 'gascases', (60, 2000), lambda op, code: code & 29, GAS_RULE, tm_nontrivial),
+         assumptions=['receivers are user accounts (a non-payable contract as receiver would make the transfer fail in the protocol)',
+                      'zero-amount ESDT refunds are not generated'])
+
+
 # ------------------------------------------------------------------ replay
 
 def replay(ctx, path):
